@@ -785,8 +785,62 @@ def histogram(rep, case):
         rep.count("product with external parameters")
 
 
+def dom_free(d):
+    if d["k"] in ("I", "C"):
+        return set(d["deps"])
+    if d["k"] == "X":
+        return (dom_free(d["a"]) - set(dvars(d["b"]))) | dom_free(d["b"])
+    if d["k"] in ("Tr", "Ro"):
+        return set(d["deps"]) | dom_free(d["d"])
+    return dom_free(d["a"]) | dom_free(d["b"])
+
+
+def free_deps(s):
+    """variables a sampler expression needs from outside"""
+    if s["k"] == "leaf":
+        return dom_free(s["d"])
+    if s["k"] == "data":
+        return set()
+    if s["k"] == "T":
+        return free_deps(s["s"])
+    if s["k"] == "*":
+        return (free_deps(s["a"]) - set(svars(s["b"]))) | free_deps(s["b"])
+    return free_deps(s["a"]) | free_deps(s["b"])
+
+
+def shrink(case, budget=40):
+    """structural shrinking: sub-expressions and fewer parameter rows, while a property oracle still fails"""
+    best, best_fails = case, None
+    progress = True
+    while progress and budget > 0:
+        progress = False
+        s = best["s"]
+        cands = []
+        for key in ("a", "b", "s"):
+            if key in s and isinstance(s[key], dict) and s[key].get("k") in ("leaf", "data", "*", "+", "&", "T"):
+                cands.append(dict(best, s=s[key]))
+        if best["k"] > 1:
+            cands.append(dict(best, k=best["k"] - 1, pvals=best["pvals"][:-1]))
+        if s["k"] == "leaf" and s["n"] > 1:
+            cands.append(dict(best, s=dict(s, n=max(1, s["n"] // 2))))
+        for c in cands:
+            if not free_deps(c["s"]) <= set(c["pvars"] if c["k"] else []):
+                continue
+            budget -= 1
+            f = oracles(c, run_impl(c))
+            if f:
+                best, best_fails, progress = c, f, True
+                break
+    return best, best_fails
+
+
 def judge(rep, case, res, reply):
     fails = oracles(case, res)
+    if fails and rep.hist.get("shrunk", 0) < 3:
+        rep.count("shrunk")
+        small, sf = shrink(case)
+        if sf:
+            rep.fail(sf[0], dict(case=small, text=describe(small), shrunk_from=describe(case)))
     for f in fails:
         rep.fail(f, dict(case=case, text=describe(case)))
     # correspondence
